@@ -10,9 +10,9 @@
 (* num::Ratio maintains; `Reduce` maps any pair with d # 0 (negative       *)
 (* denominators, common factors) to it, as Ratio::new does.                *)
 (*                                                                         *)
-(* TLC integers are 32 bit.  With |n| <= 2 d and d < 2^15 for every        *)
-(* operand all products below stay under 2^31 (a d' + c d <= 4 * 2^30 is   *)
-(* avoided because operands of the arithmetic are normalised: |n| <= d).   *)
+(* TLC integers are 32 bit.  The operands of the arithmetic are phases,     *)
+(* |n| <= d, and with d < 2^15 every product below stays under 2^31        *)
+(* (a d' + c d < 2^30 + 2^30; limit bounds m <= 2^12 give d m, n k < 2^27).*)
 (* Operands near the 64-bit limit cannot be evaluated by TLC.              *)
 (*                                                                         *)
 (*   Norm(q)          the unique representative in (-1,1] of q + 2Z,       *)
@@ -181,8 +181,12 @@ DistNum(x, q) == PAbs((x[1] * q[2]) - (q[1] * x[2]))
 \* |x - q| <= |y - q|, |x - q| = |y - q|   (the common factor q[2] cancels)
 DistLeq(x, y, q) == DistNum(x, q) * y[2] <= DistNum(y, q) * x[2]
 DistEq(x, y, q) == DistNum(x, q) * y[2] = DistNum(y, q) * x[2]
+(* The second conjunct follows from the third (the fraction with the same denominator x[2] nearest to q is a
+   candidate and lies within 1/(2 x[2]) of q); it is stated first so that TLC never multiplies the
+   distance of a far-off x by a denominator (32-bit products). *)
 IsBestApprox(x, q, m) ==
   /\ IsRat(x) /\ x[2] <= m
+  /\ 2 * DistNum(x, q) <= q[2]
   /\ \A y \in LimitCands(q, m) : DistLeq(x, y, q) /\ ((DistEq(x, y, q) /\ y # x) => x[2] < y[2])
 \* at most one x can satisfy IsBestApprox (two would each need the strictly smaller denominator)
 LimitDenDecl(q, m) == CHOOSE x \in LimitCands(q, m) : IsBestApprox(x, q, m)
